@@ -64,7 +64,7 @@ CHECKS = {
         trusted_base=STD_TRUST + [
             "reader model: Read::read_exact consumes exactly |buf| bytes or fails when fewer remain (std::io contract for &[u8]/Cursor)",
             "util::deserialize::<_, MessageHeader> reads 28 bytes at the ICD offsets (proved by Kani harness c10_layout_message_header)",
-            "decode_digital_radar_data consumes spec_drd(bytes).1 bytes on Ok (checked only by the bounded C02 routing harnesses)",
+            "decode_digital_radar_data leaves the reader where drd_spec says (proved in unit drd_decode over the absolute Cursor model); framing uses it through the uninterpreted spec_drd(bytes).1",
         ],
         not_decided=["that a type-31 message with contiguous blocks in pointer order consumes exactly its own length "
                      "(assumed contract of decode_digital_radar_data; bounded evidence under C02)"],
@@ -254,12 +254,22 @@ CHECKS = {
             dict(name="drd_route_cfp", bounded="1 block, gates<=2, word 8/16", tier="thorough", what="CFP routing"),
             dict(name="drd_two_blocks_permuted_gap", bounded="2 blocks, permuted pointers, 4-byte gap", tier="thorough", what="pointer order != layout order, gap between blocks"),
         ])],
-        trusted_base=KANI_TRUST + ["in-harness Read+Seek slice reader stands for Cursor<&[u8]> (decoder uses only the Read/Seek contract)"],
-        not_decided=["all 2^10 block subsets x orders x pointer layouts are not enumerated: per-name routing and one two-block "
-                     "shape are bounded stand-ins (labelled bounded, not counted as proof)"],
+        trusted_base=STD_TRUST + KANI_TRUST + [
+            "in-harness Read+Seek slice reader stands for Cursor<&[u8]> (decoder uses only the Read/Seek contract)",
+            "absolute reader model of unit drd_decode (rwhole/rpos with Cursor semantics: seek(Start) always Ok, read_exact fails iff too few bytes remain)",
+            "deserialize::<T> contract == Wire::parse at the ICD offsets (each layout proved by its wire_layout_* Kani harness; hand-over by the generated table tools/wire.py)",
+            "String::from_utf8_lossy on a 3-byte name equals one of the ten literals iff the bytes do (axiom_lossy3_names)",
+            "pointer list: `chunks_exact(4).map(from_be_bytes).collect()` is the assumed shim_be_u32s (R-shim; iterator adaptors are outside Verus)",
+        ],
+        not_decided=["the Verus routing proof meets the per-struct layout harnesses by contract hand-over (Wire::parse of each block is the "
+                     "Kani-proved layout), not by one machine-checked chain; the bounded Kani routing harnesses remain as witnesses on the "
+                     "compiled crate (thorough tier)"],
         explanation="Every field of every type-31 wire struct proved at its ICD offset through the real serde/bincode path "
-                    "for all byte values (complete); gate-buffer sizing for all u16 x u8 (complete); routing by block name is "
-                    "bounded (concrete structure, symbolic contents).",
+                    "for all byte values (complete, Kani); gate-buffer sizing for all u16 x u8 (complete, Kani and Verus); routing is "
+                    "proved unbounded by the Verus unit drd_decode: decode_digital_radar_data == drd_spec, a fold over the pointer list "
+                    "(any subset, order, duplicates, gaps, backwards pointers, any gate count / word size): each pointer seeks to "
+                    "start+ptr, the three-character name selects exactly one slot, absent blocks stay None, gate bytes are the "
+                    "gates x word/8 bytes that follow the generic header.",
     ),
     "C07": dict(
         kani=[dict(crate="nexrad-decode", files=["c07.rs"], contracts=False, tag="-callsites", harnesses=[
@@ -301,11 +311,11 @@ CHECKS = {
         not_decided=["peak-memory clause: allocation sizes are functions of 8/16-bit fields (proved for the gate buffer: "
                      "c02_generic_block_new_len; Vec::with_capacity(u16) elsewhere) but an aggregate memory bound is a resource "
                      "property no contract language here expresses",
-                     "type-31 totality over all 2^24 block names and all pointer layouts (bounded harnesses only)"],
+                     "type-31 totality is proved by unit drd_decode modulo: the name is compared through String::from_utf8_lossy (axiom: a lossy 3-byte name equals one of the ten literals iff its bytes do), the pointer-list iterator chain (R-shim shim_be_u32s) and format! on the error path (shim)"],
         explanation="Absence of panics and termination of decode_messages / decode_message_contents / decode_message_header / "
                     "VCP / clutter-map decoders are by-products of the Verus proofs (every index, slice, overflow and decreases "
                     "obligation) for all inputs; deserialize on every strict prefix of every wire struct is Err by complete Kani "
-                    "harnesses; the type-31 decoder is bounded.",
+                    "harnesses; the type-31 decoder is total by the Verus unit drd_decode (every slice index, arithmetic and loop obligation, for every input) with bounded Kani harnesses as witnesses on the compiled crate.",
     ),
     "C15": dict(
         verus=[dict(unit="search_newest"), dict(unit="latest_volume"), dict(unit="search")],
